@@ -10,6 +10,7 @@ import (
 	"encoding/json"
 	"fmt"
 	"os"
+	"regexp"
 	"runtime"
 	"runtime/debug"
 	"sort"
@@ -78,17 +79,33 @@ func (c *Ctx) Thorough() bool { return c.Tier == "thorough" }
 // N picks the case count of the tier.
 func (c *Ctx) N(quick, thorough int) int {
 	if c.Thorough() {
-		// the driver stretches the thorough case lists of cheap checks (driver/run.py THOROUGH_SCALE);
-		// indices below the unscaled length address the same cases as before
-		if k, err := strconv.Atoi(os.Getenv("VERIF_THOROUGH_SCALE")); err == nil && k > 1 {
-			return thorough * k
-		}
 		return thorough
 	}
-	if k, err := strconv.Atoi(os.Getenv("VERIF_QUICK_SCALE")); err == nil && k > 1 {
-		return quick * k
-	}
 	return quick
+}
+
+// casesScale: the driver stretches the case lists of named random monitors (driver/run.py CASE_SCALE):
+// VERIF_CASES_SCALE=k multiplies the length of every list whose monitor name matches VERIF_CASES_SCALE_RE.
+// Indices below the unscaled length address the same cases as before.  Only lists whose index is nothing
+// but a PRNG stream address may be named there (never enumerations or directed lists).
+var (
+	scaleOnce sync.Once
+	scaleK    = 1
+	scaleRE   *regexp.Regexp
+)
+
+func casesScale(monitor string) int {
+	scaleOnce.Do(func() {
+		if k, err := strconv.Atoi(os.Getenv("VERIF_CASES_SCALE")); err == nil && k > 1 {
+			if re, err := regexp.Compile(os.Getenv("VERIF_CASES_SCALE_RE")); err == nil && os.Getenv("VERIF_CASES_SCALE_RE") != "" {
+				scaleK, scaleRE = k, re
+			}
+		}
+	})
+	if scaleRE != nil && scaleRE.MatchString(monitor) {
+		return scaleK
+	}
+	return 1
 }
 
 func (c *Ctx) emit(v map[string]any, flush bool) {
@@ -153,6 +170,7 @@ func (c *Ctx) watchdog() {
 
 // Cases executes the cases 0..n-1 of a monitor that belong to this shard.
 func (c *Ctx) Cases(monitor string, n int, f func(cs *Case)) {
+	n *= casesScale(monitor)
 	for i := 0; i < n; i++ {
 		id := fmt.Sprintf("%s#%d", monitor, i)
 		if c.Only != "" {
